@@ -536,6 +536,28 @@ def _plan(ctx, thorough=False):
     return plan
 
 
+def _long_jumps(ctx):
+    """candidate paths with ONE long jump (Manhattan length 2, 127..129, 255..258, ...) on long thin and on big sparse mazes: never valid,
+    whatever bit happens to be set at the lesser corner. Oracle only (a jump is not a connection)."""
+    from maze_dataset import LatticeMaze
+    for rows, cols in ([(1, 300), (300, 1), (130, 130)] if ctx.quick else [(1, 300), (300, 1), (130, 130), (2, 520), (260, 3)]):
+        cl = np.zeros((2, rows, cols), dtype=bool)
+        cl[0, : rows - 1, :] = True; cl[1, :, : cols - 1] = True          # the full lattice: every "connection leaving a cell" is open
+        m = LatticeMaze(connection_list=cl)
+        for L in (2, 3, 126, 127, 128, 129, 130, 254, 255, 256, 257, 258, 259):
+            for (a, b) in (((0, 0), (min(L, rows - 1), L - min(L, rows - 1))), ((0, 0), (L - min(L, cols - 1), min(L, cols - 1)))):
+                if not (0 <= b[0] < rows and 0 <= b[1] < cols) or abs(a[0] - b[0]) + abs(a[1] - b[1]) != L: continue
+                for path in ([a, b], [b, a], [a, b, a]):
+                    ctx.case(["long-jump", rows, cols, L, path]); ctx.count("long_jump_paths")
+                    try:
+                        got = bool(m.is_valid_path(np.array(path)))
+                    except Exception as e:
+                        got = f"{type(e).__name__}"
+                    if got is not False:
+                        ctx.violate(f"is_valid_path: is_valid_path({path}) = {got} on the full {rows}x{cols} lattice, but the path jumps {L} cells in one step "
+                                    f"(nodes_connected says {bool(m.nodes_connected(np.array(path[0]), np.array(path[1])))})", dict(rows=rows, cols=cols, long_jump=L, path=[list(x) for x in path])); return
+
+
 def run(ctx):
     warnings.filterwarnings("ignore")
     plan = _plan(ctx, ctx.tier == "thorough")
@@ -554,6 +576,7 @@ def run(ctx):
             ctx.sample(dict(maze=o[2], neighbours=o[1]["nbrs"][:6], degrees=o[1]["degrees"], adj_unshuffled=o[1]["adj"][0],
                             forks=o[1]["forks"], following=o[1]["following"]), limit=3)
     _lattice(ctx)
+    if not ctx.violations: _long_jumps(ctx)
 
 
 def search(ctx):
